@@ -112,7 +112,9 @@ def strategy_(draw, tier):
         else:
             # walks that come back to a node (hairpins, inverted duplications) in about a third of the records
             prefix = draw(st.sampled_from(closed)) if (closed and draw(st.integers(0, 2)) == 0) else None
-            line, read = draw(rc.realign_record(g, lm, name, rnd, comment=comment, prefix=prefix, max_len=3 if prefix else 5))
+            line, read = draw(rc.realign_record(g, lm, name, rnd, comment=comment, prefix=prefix, max_len=3 if prefix else 5,
+                                                # an input record need not carry a CIGAR: the realigned record always does
+                                                with_cigar=draw(st.integers(0, 5)) > 0))
         lines.append(line)
         if not long_class and draw(st.integers(0, 3)) == 0:
             # a split alignment: the next record belongs to the same read, with another query interval
@@ -262,6 +264,8 @@ def run_case(case):
                 nontrivial = True
         has_rev = any(o == "<" for o, _ in steps)
         edits = any(o != "=" for _, o in ops)
+        if not cg_in:
+            cl.add("input_without_cigar")
         if has_rev:
             cl.add("reverse_step")
         if steps[0][0] == "<" and ps > 0:
